@@ -382,3 +382,44 @@ pub fn r_alias_index_write(data: [u8; 8]) -> u8 {
     view[0] = 9;
     out[1]
 }
+
+// ---- methods (prefix m_): `&mut self` with fields; the translation threads the fields as a tuple ----
+pub struct St {
+    pub state: [u8; 8],
+    pub i: u8,
+    pub j: u8,
+}
+
+impl St {
+    pub fn m_step(&mut self, x: u8) -> u8 {
+        self.i = self.i.wrapping_add(1);
+        self.j = self.j.wrapping_add(self.s_i());
+        self.state.swap((self.i % 8).into(), (self.j % 8).into());
+        let index: usize = (self.s_i().wrapping_add(x) % 8).into();
+        self.state[index]
+    }
+
+    pub fn m_write(&mut self, k: usize, v: u8) -> u8 {
+        self.state[k] = v;
+        self.state[k] ^= 0x0F;
+        self.i += 1;
+        self.state[0]
+    }
+
+    pub fn m_branch(&mut self, x: u8) -> u8 {
+        if x >= self.i {
+            return 0;
+        }
+        let c = self.state[(x % 8) as usize];
+        if c >= self.j {
+            self.j = c;
+            return 1;
+        }
+        self.i -= x;
+        2
+    }
+
+    const fn s_i(&self) -> u8 {
+        self.state[(self.i % 8) as usize]
+    }
+}
